@@ -281,7 +281,7 @@ def run_check(prop, tier, seed, spec, work, t0):
             kind = exp.split(":", 1)[0]
             ok = False
             if kind == "assert":
-                ok = outc == exp
+                ok = outc == exp or exp.split(":", 1)[1] in (rr.get("failed") or [])
             elif kind == "panic":
                 ok = outc.startswith("panic:")
             elif kind in ("exit", "wedge"):
@@ -353,11 +353,11 @@ def run_check(prop, tier, seed, spec, work, t0):
         print(l)
     print(f"{prop} {tier}: paths={tot['paths']} obligations={tot['asserts']} queries={tot['queries']} validated={validated} "
           f"violations={new_viol} known={sum(1 for l in lines if l.startswith('KNOWN'))} inconclusive={len(inconclusive)} wall={wall:.1f}s")
+    for i in inconclusive[:10]:
+        print("INCONCLUSIVE:", i[:1500])
     if new_viol:
         return 1
     if inconclusive:
-        for i in inconclusive[:10]:
-            print("INCONCLUSIVE:", i[:1500])
         return 2
     return 0
 
